@@ -312,8 +312,8 @@ func TestVerifC18(t *testing.T) {
 	c.Assume("Infrastructure assertions (accounts, account-keys, one snap-declaration) are placed into the backstores directly, without Check; the statement is about the assertion being checked, not its key's own chain.")
 	c.Assume("'decoded signature' = standard base64 decoding of the signature part; SetEarliestTime mode: the key must not be expired at the earliest time (no claim for keys with an empty window).")
 
-	mo := &c18Mon{c: c, itemsPerScenario: kit.Scale(24, 40), posPerRegion: kit.Scale(3, 8), sweepsPerScen: kit.Scale(1, 3)}
-	nScen := kit.Scale(36, 220)
+	mo := &c18Mon{c: c, itemsPerScenario: kit.Scale(24, 36), posPerRegion: kit.Scale(3, 6), sweepsPerScen: kit.Scale(1, 2)}
+	nScen := kit.Scale(36, 120)
 	c18InitPool(16)
 	for idx := 0; idx < nScen; idx++ {
 		if only := kit.OnlyCase(); only >= 0 && only != idx {
